@@ -63,6 +63,12 @@ Final ==               \* the first of finish / kill / timeout wins
   [][\A s \in DOMAIN job : job[s].done =>
         /\ job'[s].done /\ job'[s].err = job[s].err /\ job'[s].res = job[s].res]_vars
 
+FinishedNotRequeued == \* a finished job never re-enters a queue or a mailbox
+  [][IsRestartStep \/
+     \A s \in DOMAIN job : (job[s].done /\ ~InHeap(s) /\ ~InBox(s)) =>
+        ( /\ \A c \in Channels : s \notin heap'[c]
+          /\ \A w \in Workers : ~(waiter'[w].on /\ waiter'[w].box = s) )]_vars
+
 IdempotentAdd ==       \* adding under a live id changes nothing
   [][(last'.op = "add" /\ ~last'.new) => view' = view]_vars
 OneJobPerId ==
